@@ -21,6 +21,11 @@ pub struct Case {
     pub steps: Vec<Step>,
     /// what each step was meant to be (labels)
     pub kinds: Vec<String>,
+    /// CLI tier: a generated failing workspace; the failed push must leave the model tree of the
+    /// patches before the failing one (undo of modifications, creations, deletions, renames, mode
+    /// changes and partial applications through the binary's own rollback path)
+    #[serde(default)]
+    pub cli: Option<crate::props::cli::CliCase>,
 }
 
 fn render_plain(hunks: &[HHunk], old: &str, new: &str) -> Vec<u8> {
@@ -49,7 +54,7 @@ impl Prop for C04 {
         "C04"
     }
     fn rule(&self) -> String {
-        "in-process histories: a start state (absent | content over a 2-4 letter alphabet, permissions) and 1..5 applications in sequence, each a file patch with its own direction and fuzz: modify (1-4 hunks cut from the predicted current content and perturbed, so complete and partial applications occur), create (with /dev/null or with the name on both sides), delete (to /dev/null or truncate), mode change alone or with hunks; then LIFO rollback. Oracle (inverse): after undoing step i the file's {content, deleted flag, permissions} equal the state recorded before step i; no panic anywhere. CLI tier: see C05 (failing patches mixing these operations). non-trivial = some step applied >=2 hunks with a line-count change, or a create/delete/mode step is undone; distinct = distinct case".into()
+        "in-process histories: a start state (absent | content over a 2-4 letter alphabet, permissions) and 1..5 applications in sequence, each a file patch with its own direction and fuzz: modify (1-4 hunks cut from the predicted current content and perturbed, so complete and partial applications occur), create (with /dev/null or with the name on both sides), delete (to /dev/null or truncate), mode change alone or with hunks; then LIFO rollback. Oracle (inverse): after undoing step i the file's {content, deleted flag, permissions} equal the state recorded before step i; no panic anywhere. CLI tier (1 case in 60): a generated failing workspace whose failing patch mixes modify, create (both header forms), delete, rename, mode change and partial failures - the failed push must leave exactly the model tree of the patches before it (the binary's rollback incl. rename undo). non-trivial = some step applied >=2 hunks with a line-count change, or a create/delete/mode step is undone; distinct = distinct case".into()
     }
     fn assumptions(&self) -> Vec<String> {
         vec!["the generator predicts intermediate contents with the reference placement model only to cut plausible hunks; the oracle itself uses nothing but the states the implementation reported before each step".into()]
@@ -57,7 +62,12 @@ impl Prop for C04 {
     fn budget(&self, tier: Tier) -> (u32, usize) {
         (tier.pick(20000, 300000), 400)
     }
-    fn build(&self, ch: &mut Chooser, _cx: &mut CaseCtx) -> Case {
+    fn build(&self, ch: &mut Chooser, cx: &mut CaseCtx) -> Case {
+        if ch.chance(1, 60) {
+            let mut c = crate::props::cli::build_cli_case(ch, cx, 8, false);
+            c.opts.backup = ch.pick(&["always", "onfail", "never"]).to_string();
+            return Case { start: None, start_mode: None, patches: vec![], steps: vec![], kinds: vec![], cli: Some(c) };
+        }
         let k = ch.range(2, 4);
         let alpha = Alphabet::Small(k);
         let mut gen_lines = |ch: &mut Chooser, max: usize| -> Vec<B> {
@@ -168,10 +178,22 @@ impl Prop for C04 {
             steps.push(Step { patch: patches.len(), reverse, fuzz });
             patches.push(B(text));
         }
-        Case { start, start_mode, patches, steps, kinds }
+        Case { start, start_mode, patches, steps, kinds, cli: None }
     }
 
     fn check(&self, case: &Case, cx: &mut CaseCtx) -> Verdict {
+        if let Some(c) = &case.cli {
+            cx.label("cli-failing-workspace");
+            let v = crate::props::cli::check_c05_like(c, cx, false);
+            // non-trivial for C04: the failing patch had something applied that had to be undone
+            if let Some(j) = c.ws.fail_at {
+                cx.nontrivial = c.ws.metas[j].ops.iter().any(|o| o.failing_hunks.len() < o.hunks.len().max(1));
+                for o in &c.ws.metas[j].ops {
+                    cx.label(&format!("undo-{}", o.kind));
+                }
+            }
+            return v;
+        }
         for k in &case.kinds {
             cx.label(&format!("step-{}", k));
         }
